@@ -19,6 +19,13 @@ Recognised family (everything else -> Skip, the snapshot is used and the corresp
 
     CLEANUP = sequence of blocks, each   try: next(it) x n  except <Class>: pass      -> (n, <Class>)
                                    or    next(it) x n                                   -> (n, none)
+              a statement `helper()` / `await helper()` naming a parameterless function defined next to the wrapper is
+              replaced by that function's body (only when `it` is one shared cell, see below)
+
+    where `it` lives                                                                    -> iteratorPerUse
+        a plain local of `wrapper` (one per call of the manager, i.e. per use)             true
+        declared `nonlocal` / `global` in `wrapper` (one cell per decorated manager /      false
+        per module, shared by all live uses)
 """
 import ast
 from extract import Skip, src, find_func, lean_bool, lean_str, HEADER
@@ -104,9 +111,43 @@ def count_nexts(stmts, it, is_async):
     return len(stmts)
 
 
-def cleanup_blocks(stmts, it, is_async):
+def helper_call(s, helpers):
+    """`helper()` (plain def) / `await helper()` (async def) as a statement -> the helper's def"""
+    if not isinstance(s, ast.Expr):
+        return None
+    v, awaited = s.value, False
+    if isinstance(v, ast.Await):
+        v, awaited = v.value, True
+    if isinstance(v, ast.Call) and isinstance(v.func, ast.Name) and v.func.id in helpers and not v.args and not v.keywords:
+        h = helpers[v.func.id]
+        if isinstance(h, ast.AsyncFunctionDef) != awaited:
+            raise Skip('cleanup: helper coroutine that is not awaited / plain helper that is awaited')
+        return h
+    return None
+
+
+def expand_helpers(stmts, helpers, it, shared):
+    out = []
+    for s in stmts:
+        h = helper_call(s, helpers)
+        if h is None:
+            out.append(s)
+            continue
+        if it not in shared:
+            raise Skip('cleanup: a helper function cannot see the local iterator of the wrapper')
+        for x in ast.walk(h):
+            if isinstance(x, ast.Name) and x.id == it and isinstance(x.ctx, ast.Store):
+                raise Skip('cleanup: helper rebinds the iterator')
+            if isinstance(x, (ast.Yield, ast.YieldFrom, ast.Return)) and not (isinstance(x, ast.Return) and x.value is None):
+                raise Skip('cleanup: helper yields / returns a value')
+        out += [b for b in strip_doc(h.body) if not isinstance(b, (ast.Nonlocal, ast.Global))]
+    return out
+
+
+def cleanup_blocks(stmts, it, is_async, helpers=None, shared=()):
     blocks = []
     run = []
+    stmts = expand_helpers(stmts, helpers or {}, it, shared)
     for s in stmts:
         if isinstance(s, ast.Pass):
             continue
@@ -124,7 +165,7 @@ def cleanup_blocks(stmts, it, is_async):
                 cls = CAUGHT[h.type.id]
             else:
                 raise Skip('cleanup: handler class outside the table')
-            blocks.append((count_nexts(s.body, it, is_async), cls))
+            blocks.append((count_nexts(expand_helpers(s.body, helpers or {}, it, shared), it, is_async), cls))
         else:
             run.append(s)
     if run:
@@ -154,13 +195,29 @@ def shape_of(tree, deco_name, want_async):
         raise Skip(f'{deco_name}: no parameter')
     param = fn.args.args[0].arg
     body = strip_doc(fn.body)
-    inner = [s for s in body if isinstance(s, (ast.FunctionDef, ast.AsyncFunctionDef))]
-    if len(inner) != 1:
-        raise Skip(f'{deco_name}: expected exactly one inner function')
+    defs = [s for s in body if isinstance(s, (ast.FunctionDef, ast.AsyncFunctionDef))]
+
+    def n_params(d):
+        a = d.args
+        return len(a.posonlyargs) + len(a.args) + len(a.kwonlyargs) + (a.vararg is not None) + (a.kwarg is not None)
+    inner = [d for d in defs if n_params(d) > 0]
+    helpers = {d.name: d for d in defs if n_params(d) == 0 and not d.decorator_list}
+    if len(inner) != 1 or len(inner) + len(helpers) != len(defs):
+        raise Skip(f'{deco_name}: expected exactly one inner function taking arguments (plus parameterless helpers)')
     w = inner[0]
     widx = body.index(w)
-    check = compile_stmts(body[:widx], param, 'none')
-    after = body[widx + 1:]
+    # names the wrapper declares nonlocal / global: cells shared by every call of the decorated manager
+    shared = set()
+    for x in ast.walk(w):
+        if isinstance(x, (ast.Nonlocal, ast.Global)):
+            shared.update(x.names)
+    pre = [s for s in body[:widx] if s not in defs
+           and not (isinstance(s, ast.Assign) and len(s.targets) == 1 and isinstance(s.targets[0], ast.Name) and s.targets[0].id in shared
+                    and isinstance(s.value, ast.Constant))
+           and not (isinstance(s, ast.AnnAssign) and isinstance(s.target, ast.Name) and s.target.id in shared
+                    and (s.value is None or isinstance(s.value, ast.Constant)))]
+    check = compile_stmts(pre, param, 'none')
+    after = [s for s in body[widx + 1:] if s not in defs]
     if len(after) != 1 or not isinstance(after[0], ast.Return):
         raise Skip(f'{deco_name}: statements after the inner function are not a single return')
     r = after[0].value
@@ -176,11 +233,15 @@ def shape_of(tree, deco_name, want_async):
     is_async = isinstance(w, ast.AsyncFunctionDef)
     a = w.args
     star = a.vararg is not None and a.kwarg is not None and not a.args and not a.kwonlyargs and not a.posonlyargs
-    wb = strip_doc(w.body)
+    wb = [s for s in strip_doc(w.body) if not isinstance(s, (ast.Nonlocal, ast.Global))]
     if not wb or not (isinstance(wb[0], ast.Assign) and len(wb[0].targets) == 1 and isinstance(wb[0].targets[0], ast.Name)
                       and isinstance(wb[0].value, ast.Call) and isinstance(wb[0].value.func, ast.Name) and wb[0].value.func.id == param):
         raise Skip(f'{deco_name}: wrapper does not start with `<it> = {param}(...)`')
     it = wb[0].targets[0].id
+    per_use = it not in shared
+    for x in ast.walk(w):
+        if isinstance(x, (ast.Lambda, ast.FunctionDef, ast.AsyncFunctionDef)) and x is not w:
+            raise Skip(f'{deco_name}: nested function inside the wrapper')
     c = wb[0].value
     forwards = (star and len(c.args) == 1 and isinstance(c.args[0], ast.Starred) and isinstance(c.args[0].value, ast.Name)
                 and c.args[0].value.id == a.vararg.arg and len(c.keywords) == 1 and c.keywords[0].arg is None
@@ -198,10 +259,10 @@ def shape_of(tree, deco_name, want_async):
         if len(t.body) != 1 or not is_yield_next(t.body[0]):
             raise Skip(f'{deco_name}: outer try body is not `yield next(iterator)`')
         in_finally = True
-        blocks = cleanup_blocks(t.finalbody, it, is_async)
+        blocks = cleanup_blocks(t.finalbody, it, is_async, helpers, shared)
     elif is_yield_next(rest[0]):
         in_finally = False
-        blocks = cleanup_blocks(rest[1:], it, is_async)
+        blocks = cleanup_blocks(rest[1:], it, is_async, helpers, shared)
     else:
         raise Skip(f'{deco_name}: first statement after the iterator is neither try nor `yield next(iterator)`')
     for x in ast.walk(w):
@@ -212,7 +273,8 @@ def shape_of(tree, deco_name, want_async):
         raise Skip(f'{deco_name}: wrapper has {n_yields} yields')
     bl = ', '.join(f'({n}, .{c})' for n, c in blocks)
     shape = (f'{{ wrapperIsAsync := {lean_bool(is_async)}, forwardsArgs := {lean_bool(forwards)}, cleanupInFinally := {lean_bool(in_finally)},\n'
-             f'    cleanup := [{bl}], wrappedBy := .{wrapped}, usesWraps := {lean_bool(uses_wraps)} }}')
+             f'    cleanup := [{bl}], wrappedBy := .{wrapped}, usesWraps := {lean_bool(uses_wraps)},\n'
+             f'    iteratorPerUse := {lean_bool(per_use)} }}')
     return check, shape
 
 
@@ -261,6 +323,9 @@ structure Shape where
   wrappedBy : Wrap
   /-- `@wraps(f)` on the wrapper -/
   usesWraps : Bool
+  /-- the variable holding the user generator between the yield and the cleanup is a plain local of `wrapper` (one per call of the
+      manager, i.e. per use); false: it is declared `nonlocal` / `global`, one cell shared by all live uses of the manager -/
+  iteratorPerUse : Bool
 deriving Repr
 
 /-! translated from the source -/
